@@ -119,26 +119,30 @@ def judge_area(c, op, cfg, raw):
 
 
 # ---------------- length: support sweep (QUADPACK is not modelled) ----------------
-def gauss_length(rows, pieces=64):
-    """reference value by composite 5-point Gauss-Legendre in binary64 (support only)"""
+def gauss_length(rows, pieces=2048):
+    """reference value by composite 8-point Gauss-Legendre in binary64 (support only), vectorised"""
     import numpy as np
     xs, ws = np.polynomial.legendre.leggauss(8)
     n = len(rows[0]) - 1
-    d = [[float(n * (r[i + 1] - r[i])) for i in range(n)] for r in rows]
-    tot = 0.0
-    for p in range(pieces):
-        a, b = p / pieces, (p + 1) / pieces
-        for x, w in zip(xs, ws):
-            s = 0.5 * (a + b) + 0.5 * (b - a) * x
-            sp = 0.0
-            for dr in d:
-                v = 0.0
-                m = len(dr) - 1
-                for i, c in enumerate(dr):
-                    v += math.comb(m, i) * s ** i * (1 - s) ** (m - i) * c
-                sp += v * v
-            tot += 0.5 * (b - a) * w * math.sqrt(sp)
-    return tot
+    edges = np.linspace(0.0, 1.0, pieces + 1)
+    a, b = edges[:-1, None], edges[1:, None]
+    s = (0.5 * (a + b) + 0.5 * (b - a) * xs[None, :]).ravel()
+    w = (0.5 * (b - a) * ws[None, :]).ravel()
+    sp = np.zeros_like(s)
+    m = n - 1
+    for r in rows:
+        v = np.zeros_like(s)
+        for i in range(n):
+            v += math.comb(m, i) * s ** i * (1 - s) ** (m - i) * float(n * (r[i + 1] - r[i]))
+        sp += v * v
+    return float(np.sum(w * np.sqrt(sp)))
+
+
+def reference_length(rows):
+    """(value, trusted): two resolutions must agree to 2^-36 relative, otherwise the case makes no claim (near-cusps make
+    the integrand non-smooth and a fixed rule inaccurate)"""
+    r1, r2 = gauss_length(rows, 2048), gauss_length(rows, 8192)
+    return r2, abs(r1 - r2) <= 2.0 ** -36 * max(r2, 1e-300)
 
 
 def gen_len(ctx):
@@ -162,7 +166,9 @@ def judge_len(c, op, cfg, raw):
     poly = sum(math.sqrt(sum(float(r[i + 1] - r[i]) ** 2 for r in rows)) for i in range(c["n"]))
     if got < chord * (1 - 1e-9) or got > poly * (1 + 1e-9):
         return "length %r not between chord %r and control polygon %r" % (got, chord, poly)
-    ref = gauss_length(rows)
+    ref, trusted = reference_length(rows)
+    if not trusted:
+        return None
     if abs(got - ref) > 4 * 2.0 ** -26 * max(ref, 1e-300) + 1e-12:
         return "length %r differs from the reference integral %r by more than the advertised quadrature tolerance" % (got, ref)
     return None
